@@ -585,9 +585,10 @@ func main() {
 	s := &sched{famDone: map[string]int64{}, famHist: map[string]*[nClasses]int64{}, faults: map[string][]string{}, faultSrc: map[string]string{},
 		review: map[string]int64{}, reviewEx: map[string]string{}, thorough: r.Thorough()}
 	s.known = loadKnownKeys(r.ID)
-	// quick: the first-pass filter is deliberately generous (60 s): on a loaded box legitimate heavy cases (string
-	// doubling up to the allocation limit: 40-50 CPU-s) would otherwise be nominated and cost a confirmation run each
-	s.cpuLimit, s.aloneCPU = 60*time.Second, 160*time.Second
+	// quick: the first-pass filter is deliberately generous (80 s): on a loaded box legitimate heavy cases (string
+	// doubling up to the allocation limit: 10 CPU-s idle, 40-60 CPU-s measured at load 60) would otherwise be
+	// nominated and cost a worker respawn plus a confirmation run each. Listed runaways do not pay it (tight chunks).
+	s.cpuLimit, s.aloneCPU = 80*time.Second, 160*time.Second
 	if r.Thorough() {
 		s.cpuLimit, s.aloneCPU = 90*time.Second, 360*time.Second
 		s.deadline = t0.Add(r.Budget + 10*time.Minute)
@@ -719,7 +720,11 @@ func main() {
 			if in.tight {
 				budgets = fmt.Sprintf("on its own, reduced budgets: CPU %.0fs, RSS cap %d MB", tightCPU.Seconds(), int64(tightRSS)>>20)
 			}
-			notReconfirmed = append(notReconfirmed, map[string]any{"case": id, "known_key": key, "observed": in.kind, "budgets": budgets})
+			observed := "worker death (Go fatal error)"
+			if in.kind != "death" {
+				observed = "budget exceeded" // which of the CPU / RSS caps trips first is a matter of timing: not recorded
+			}
+			notReconfirmed = append(notReconfirmed, map[string]any{"case": id, "known_key": key, "observed": observed, "budgets": budgets})
 			s.incidents = append(s.incidents, in)
 			continue
 		}
@@ -858,7 +863,7 @@ func main() {
 		"cases enter at the keeper (MsgRun/MsgAddPackage ValidateBasic + VMKeeper.Run/AddPackage) of a re-created vm test environment; ante handler, signatures and the baseapp's own recover are not in the loop",
 		"raw recovered values are observed through a hook inserted (build overlay) at the top of the keeper's doRecoverInternal; values recovered and rendered as errors deeper (parser/Go2Gno) are recognised by their 'runtime error:' text",
 		"Go-level panics that are not runtime.Error (strings/errors thrown by the preprocessor or machine) are NOT flagged; they are listed under review_candidates",
-		"worker memory: parent-enforced 4 GiB resident-set cap (the VM allocator limit is 500 MB of accounted bytes) with RLIMIT_AS 12 GiB as backstop; per-case budget is CPU time of the worker process (not wall clock): 60 s quick / 90 s thorough in a batch (a filter that nominates suspects), suspects are re-run alone in a fresh worker with 160 s quick / 360 s thorough before being reported",
+		"worker memory: parent-enforced 4 GiB resident-set cap (the VM allocator limit is 500 MB of accounted bytes) with RLIMIT_AS 12 GiB as backstop; per-case budget is CPU time of the worker process (not wall clock): 80 s quick / 90 s thorough in a batch (a filter that nominates suspects), suspects are re-run alone in a fresh worker with 160 s quick / 360 s thorough before being reported",
 		"known findings (keys listed for this property in known_findings.jsonl): in the QUICK tier a suspect whose key is already listed is not re-run alone, and the cases with a listed budget key are run on their own under reduced budgets (CPU 10 s, RSS 2 GiB) just to see them run away - they are reported as KNOWN-FINDING on that observation and enumerated in coverage.known_findings_not_reconfirmed; any suspect with an unlisted key still gets the full confirmation run. In the THOROUGH tier listed budget cases are run directly as confirmation runs (fresh worker, 360 s) and every other suspect is confirmed alone; confirmation runs still going at the tier's hard deadline (first-pass budget + 10 min) are cut and listed as unattributed_suspects",
 		"gas limits: 1e7 token sequences, 2e7 mutations, 2e7 menus, 1e8 constants, 3e9 (block maximum) ladders",
 	}
